@@ -412,8 +412,7 @@ func init() {
 			return Ptr{Obj: id}, true
 		},
 		"time.Sleep":        noop,
-		// timers are not modelled: a timer never fires within the explored step
-		"time.AfterFunc":        func(e *Engine, fr *Frame, args []Value) (Value, bool) { return Ptr{}, true },
+		"time.AfterFunc": func(e *Engine, fr *Frame, args []Value) (Value, bool) { return e.afterFunc(args[0], args[1]), true },
 		"time.NewTimer": func(e *Engine, fr *Frame, args []Value) (Value, bool) { return e.newTimer(args[0], false), true },
 		"time.After":    func(e *Engine, fr *Frame, args []Value) (Value, bool) { return e.newTimer(args[0], true), true },
 		"(*time.Timer).Stop": func(e *Engine, fr *Frame, args []Value) (Value, bool) {
